@@ -249,6 +249,7 @@ package mkvs
 //@   requires c != nil
 //@   ensures err == nil && GRemoteSyncs > old(GRemoteSyncs) ==> result0 != nil
 //@   ensures old(ptr != nil && ptr.Node != nil && (!ptr.Clean || ptr.Hash != hash.EmptyHash())) && err == nil ==> result0 != nil
+//@   ensures result0 != nil ==> ptr != nil
 //@   note (C03) a pointer whose node is in memory never dereferences to "no node", whatever the cache evicted: callers (doGet, doInsert, doRemove, the iterator) treat a nil node as an EMPTY subtree. This fails on the pinned tree for a DIRTY internal node whose attached leaf (the key that is a prefix of the subtree's keys) was evicted from the value cache: known finding F10
 //@   note when the node had to be fetched from the remote peer (remoteSync was called) and no error is returned, a node is returned: a peer's proof that verifies but does not carry the requested node cannot make a present key look absent
 
@@ -303,8 +304,29 @@ package mkvs
 // ---- removal (C03, and the local shape obligation of C02): a node is taken out only when at most one part remains ----
 
 //@ func tree.doRemove
-//@   props C03
+//@   props C03 C02
 //@   requires t != nil
 //@   assume-pre (node\.Key\.(AppendBit|GetBit|BitLength|Merge)|mkvs\.cache\.derefNodePtr)$
 //@   precall mkvs\.cache\)\.removeNode$ :: defined(remainingLeft) ==> argIs(0, ptr) && ite(remainingLeaf != nil, 1, 0) + ite(remainingLeft != nil, 1, 0) + ite(remainingRight != nil, 1, 0) <= 1
+//@   ensures-local err == nil && defined(remainingLeft) && !defined(ndLeaf) && !defined(nodePtr) ==> ite(remainingLeaf != nil, 1, 0) + ite(remainingLeft != nil, 1, 0) + ite(remainingRight != nil, 1, 0) >= 2
+//@   note ... and conversely an internal node that STAYS in the tree (the path through neither collapse branch) has at least two parts left: no internal node with a single part - which would give the same key set a different shape, hence a different root hash - survives a removal (C02, local)
 //@   note an internal node is taken out of the tree (replaced by its attached leaf or by its only child) only when at most ONE of its three parts - the attached leaf (the key that is a prefix of the subtree's keys), the left and the right subtree - is still there after the removal below it: nothing that still holds keys is dropped together with the node (seed C03_g collapsed a node with a leaf and a RIGHT subtree into the leaf). The parts are what derefNodePtr returns (see F10 for when that is wrong)
+
+// ---- insertion (C02, local shape obligation): new internal nodes have exactly two parts ----
+
+//@ func cache.newLeafNode
+//@   props C02 C03
+//@   modifies nothing
+//@   ensures result != nil && fresh(result)
+
+//@ func cache.newLeafNodePtr
+//@   props C02 C03
+//@   modifies nothing
+//@   ensures result != nil && fresh(result) && result.Node == n
+
+//@ func tree.doInsert
+//@   props C02 C03
+//@   requires t != nil
+//@   assume-pre (node\.Key\.(AppendBit|GetBit|BitLength|Merge|Split|CommonPrefixLen)|mkvs\.cache\.derefNodePtr)$
+//@   precall mkvs\.cache\)\.newInternalNode$ :: ite(argAs[*node.Pointer](2) != nil, 1, 0) + ite(argAs[*node.Pointer](3) != nil, 1, 0) + ite(argAs[*node.Pointer](4) != nil, 1, 0) == 2 && (argIs(2, ptr) || argIs(3, ptr) || argIs(4, ptr))
+//@   note every internal node an insertion creates (an edge split) has EXACTLY two parts: the new leaf and the node that was there (as attached leaf, left or right child) - never a node with a single part or one that drops the existing subtree
